@@ -123,6 +123,52 @@ class Prov:
             self._defs[f.id] = d
         return d
 
+    def _mut_ref_target(self, f, l, depth=4):
+        """(local, projection) a temporary holds a `&mut` to (through reborrows), or None"""
+        ds = self.defs(f).get(l, [])
+        if len(ds) != 1 or ds[0][0] != 'stmt' or ds[0][3] or 1 <= l <= f.argc:
+            return None
+        rv = f.blocks[ds[0][1]]['stmts'][ds[0][2]]['rv']
+        if rv['k'] == 'use' and rv['op']['k'] == 'move' and not rv['op']['pl']['p'] and depth > 0:
+            return self._mut_ref_target(f, rv['op']['pl']['l'], depth - 1)
+        if rv['k'] != 'ref' or not rv.get('mut'):
+            return None
+        pl = rv['pl']
+        if not all(e[0] in ('f', 'd') for e in pl['p']):
+            return None
+        if pl['p'] and pl['p'][0][0] == 'd' and depth > 0:
+            inner = self._mut_ref_target(f, pl['l'], depth - 1)
+            if inner is not None:
+                return inner[0], list(inner[1]) + list(pl['p'][1:])
+        return pl['l'], list(pl['p'])
+
+    def outparam_defs(self, f):
+        """local -> [('outp', bb, (callee id, callee def, sure), projection)]: field assignments a private function of the crate performs through a
+        `&mut` parameter, seen from the caller as partial definitions of the place it lent (`adopt(&mut request.context)` writing `context.trace_context`)."""
+        key = ('outp', f.id)
+        if key in self.memo:
+            return self.memo[key]
+        out = {}
+        self.memo[key] = out
+        from . import cfg as _cfg
+        for bb, t in f.calls():
+            h = self.F.callee_fn(t)
+            if h is None or h.id == f.id or h.coroutine or h.kind == 'Closure':
+                continue
+            for k, a in enumerate(t['args']):
+                if a['k'] != 'move' or a['pl']['p'] or k + 1 > h.argc:
+                    continue
+                tgt = self._mut_ref_target(f, a['pl']['l'])
+                if tgt is None:
+                    continue
+                exits = _cfg.exits(h)
+                for d in self.defs(h).get(k + 1, []):
+                    if d[0] != 'stmt' or len(d[3]) < 2 or d[3][0][0] != 'd' or not all(e[0] == 'f' for e in d[3][1:]):
+                        continue
+                    sure = bool(exits) and all(d[1] == x or _cfg.dominates(h, d[1], x) for x in exits)
+                    out.setdefault(tgt[0], []).append(('outp', bb, (h.id, d, sure), list(tgt[1]) + list(d[3][1:])))
+        return out
+
     # ------------------------------------------------------------------ terms
     def operand(self, f, op, at=None):
         k = op['k']
@@ -292,6 +338,7 @@ class Prov:
         # field overwrites of (a sub-place of) a local that also has a whole definition:
         # `ctx.trace_context = x`, `(_1.ctx).trace_context = x`
         partial = [d for d in dl if d[0] == 'stmt' and d[3] and all(e[0] in ('f', 'd') for e in d[3])]
+        partial = partial + self.outparam_defs(f).get(l, [])
         if not partial or at is None:
             return self._project(base, proj)
         from . import cfg as _cfg
@@ -306,7 +353,15 @@ class Prov:
                 if len(df) > len(prefix) and df[:len(prefix)] == prefix:
                     name = df[len(prefix)]
                     if len(df) == len(prefix) + 1:
-                        if d[1] == at or _cfg.dominates(f, d[1], at):
+                        if d[0] == 'outp':
+                            # the callee's write takes effect after the call: not visible to reads in the call's own block (its arguments)
+                            if d[1] == at or at not in _cfg.reachable(f, d[1]):
+                                continue
+                            dt = self._outp_term(f, d)
+                            if dt is None:
+                                continue
+                            (sure if d[2][2] and _cfg.dominates(f, d[1], at) else maybe).setdefault(name, []).append(dt)
+                        elif d[1] == at or _cfg.dominates(f, d[1], at):
                             sure.setdefault(name, []).append(self._def_term(f, d))
                         elif at in _cfg.reachable(f, d[1]):
                             maybe.setdefault(name, []).append(self._def_term(f, d))
@@ -336,6 +391,22 @@ class Prov:
                 prefix = prefix + [e[2]]
                 cur = wrap(cur, prefix)
         return cur
+
+    def _outp_term(self, f, d):
+        key = ('outp-t', f.id, d[1], d[2][0], d[2][1][1], d[2][1][2])
+        if key in self.memo:
+            return self.memo[key]
+        if key in self.inprog:
+            return None
+        self.inprog.add(key)
+        try:
+            h = self.F.fns[d[2][0]]
+            args = tuple(self.call_args(('call', f.id, d[1])))
+            t = self.subst(self._def_term(h, d[2][1]), h.id, list(args))
+        finally:
+            self.inprog.discard(key)
+        self.memo[key] = t
+        return t
 
     def _local_whole(self, f, l):
         key = (f.id, l)
